@@ -2,25 +2,26 @@
 # mutant_run.sh <patch.diff> <label> <PROP> [<PROP>...]
 # Runs the quick checks of the given properties against a PATCHED scratch copy of /repo, using a scratch copy of
 # the committed /verif (git HEAD), entirely under /tmp/mt/<label>; /repo and /verif themselves are not touched.
+# <patch.diff> may be "none" (unpatched tree); MT_TIER=thorough selects the thorough tier, MT_TARGET another target dir.
 # Prints "<label> <PROP> exit=<rc> violations=<n>" per property; removes the scratch copies afterwards.
 P="$1"; L="$2"; shift 2
 D=/tmp/mt/$L
 rm -rf "$D"; mkdir -p "$D"
 git -C /repo worktree remove --force "$D/repo" >/dev/null 2>&1
 git -C /repo worktree add --detach "$D/repo" HEAD >/dev/null 2>&1 || { echo "$L: repo worktree failed"; exit 2; }
-( cd "$D/repo" && git apply "$P" ) || { echo "$L: patch does not apply"; git -C /repo worktree remove --force "$D/repo"; exit 2; }
+[ "$P" = none ] || ( cd "$D/repo" && git apply "$P" ) || { echo "$L: patch does not apply"; git -C /repo worktree remove --force "$D/repo"; exit 2; }
 git -C /verif worktree remove --force "$D/verif" >/dev/null 2>&1
 git -C /verif worktree add --detach "$D/verif" HEAD >/dev/null 2>&1 || { echo "$L: verif worktree failed"; exit 2; }
 # point every path dependency at the patched copy
 grep -rl --include=Cargo.toml '/repo/' "$D/verif/harness" | xargs sed -i "s#/repo/#$D/repo/#g"
 export VERIF_REPO="$D/repo"
-export CARGO_TARGET_DIR=/tmp/mt/target   # shared by successive (sequential) mutant runs: dependencies stay cached
+export CARGO_TARGET_DIR=${MT_TARGET:-/tmp/mt/target}   # shared by successive (sequential) mutant runs: dependencies stay cached
 mkdir -p /tmp/mt/results
 for prop in "$@"; do
-  ( cd "$D/verif" && bin/check "$prop" --tier quick > /tmp/mt/results/${L}_${prop}.out 2> /tmp/mt/results/${L}_${prop}.err ); rc=$?
+  ( cd "$D/verif" && bin/check "$prop" --tier ${MT_TIER:-quick} > /tmp/mt/results/${L}_${prop}.out 2> /tmp/mt/results/${L}_${prop}.err ); rc=$?
   nv=$(grep -c "^VIOLATION" /tmp/mt/results/${L}_${prop}.out)
   nk=$(grep -c "^KNOWN-FINDING" /tmp/mt/results/${L}_${prop}.out)
-  echo "$L $prop exit=$rc violations=$nv known=$nk"
+  echo "$L $prop exit=$rc violations=$nv known=$nk secs=$SECONDS"
 done
 git -C /verif worktree remove --force "$D/verif"
 git -C /repo worktree remove --force "$D/repo"
